@@ -272,7 +272,9 @@ def shards(tier):
         for t0 in range(4):
             for via in (False, True):
                 if tier == 'quick':
-                    out.append(dict(name=f'hist2/pers={pers},t0={t0},via={via}', harness='hist2', fixed=dict(pers=pers, t0=t0, via_comm=via), budget_s=400))
+                    for custom in (False, True):
+                        out.append(dict(name=f'hist2/pers={pers},t0={t0},via={via},custom={custom}', harness='hist2',
+                                        fixed=dict(pers=pers, t0=t0, via_comm=via, custom=custom), budget_s=400))
                 else:
                     out.append(dict(name=f'hist2/pers={pers},t0={t0},via={via}', harness='hist2', fixed=dict(pers=pers, t0=t0, via_comm=via), budget_s=900))
                     if not via:
